@@ -12,6 +12,7 @@
 import BioCantor.Proofs.TabCodon
 import BioCantor.Proofs.TabAlgebra
 import BioCantor.Proofs.TabHist
+set_option autoImplicit false   -- an unresolved name in a statement must be an error, never a bound variable
 namespace BioCantor.Props.C15
 open BioCantor BioCantor.GenP BioCantor.Spec.Tab BioCantor.Model.Tab BioCantor.Proofs.Tab
 
